@@ -17,12 +17,18 @@ DOCS = {
     # the first document declares its own frame rate, the second relies on the default
     "mdvd": ("{0}{0}23.976\n{25}{50}foo\n", "{75}{100}bar|baz\n{125}{150}qux\n"),
     # first document ends on row 14, the second one starts with a preamble for row 15 (the row right below)
-    "scc": ("Scenarist_SCC V1.0\n\n00:00:01:00\t9420 94d0 c162 942f\n\n00:00:05:00\t942c\n",
+    # and its second caption has no preamble at all (it is placed at the reader's default position)
+    "scc": ("Scenarist_SCC V1.0\n\n00:00:01:00\t9420 91d0 c162 942f\n\n00:00:05:00\t942c\n\n00:00:06:00\t9420 94d0 c162 942f\n\n00:00:09:00\t942c\n",
             "Scenarist_SCC V1.0\n\n00:00:11:00\t9420 9470 c1c2 942f\n\n00:00:15:00\t942c\n\n00:00:16:00\t9420 9454 c1c2 9470 c162 942f\n\n00:00:19:00\t942c\n"),
+    # a document whose first caption has no preamble address code: it takes the default position of a fresh reader
+    "scc_nopac": ("Scenarist_SCC V1.0\n\n00:00:01:00\t9420 91d0 c162 942f\n\n00:00:05:00\t942c\n",
+                  "Scenarist_SCC V1.0\n\n00:00:11:00\t9420 c1c2 942f\n\n00:00:15:00\t942c\n"),
 }
 
 
 def _reader(i):
+    if i == 4:
+        return "scc_nopac", SCCReader
     if i == 0:
         return "srt", SRTReader
     if i == 1:
@@ -71,7 +77,7 @@ def isolation(ra: int, rb: int, op: int, which_doc: bool) -> str:
 
 def reuse_pure(r: int, first: bool) -> str:
     """
-    pre: 0 <= r < 4
+    pre: 0 <= r < 5
     post: _ == ""
     """
     k, R = _reader(r)
